@@ -150,6 +150,27 @@ CLAIMS["C10"] = {
     "design": "DESIGN.md §5 C10",
 }
 
+CLAIMS["C36"] = {
+    "text": "Partial, bounded: hydro_lang/src/sim/runtime.rs is extracted verbatim (whole file) on every run and compiled under Kani over shims; "
+            "the decision and release steps of every UN-KEYED hook are checked for every answer of the bolero driver (a havoc DynDriver: any value in "
+            "the requested range), for pending queues of 0..3 u8 items: StreamHook<TotalOrder> releases an in-order prefix (R ++ Q' == Q); "
+            "StreamHook<NoOrder>, TopLevelStreamOrderHook, TopLevelFoldHook release a sub-multiset and keep the rest (R + Q' == Q as multisets, "
+            "nothing lost or duplicated); SingletonHook re-releases the last released snapshot or releases a queued one and drops exactly the older "
+            "versions (so it can never go back); PassthroughSingletonHook releases the latest; StreamOrderHook yields a permutation, MergeOrderedHook / "
+            "TopLevelMergeOrderedHook an interleaving that keeps each input in order; every result flag == 'something new is released', a forced "
+            "decision is non-trivial; release_decision sends exactly the decided batch in order on the output channel and consumes the decision. "
+            "compiled.rs::run_hooks (extracted verbatim) is checked against the SimHook contract with 0..3 havoc hooks: each hook is decided at most "
+            "once, forced only if it can decide non-trivially, released exactly once after a decision, and if any hook can release then at least one "
+            "released decision is non-trivial (every scheduled tick releases something new).",
+    "note": "NOT covered: the keyed hooks (KeyedStreamHook, KeyedSingletonHook, KeyedStreamOrderHook, KeyedMergeOrderedHook, PartiallyOrderedStreamHook and "
+            "their TopLevel variants) own FxHashMaps (hashbrown, outside CBMC's reach); the scheduler loop around run_hooks and SimBuilder wiring; the "
+            "log-formatting branches (log_writer is None). The output channel is a CONTRACT DOUBLE of dfir_rs::util::unsync::mpsc (try_send appends and "
+            "returns Ok) because the real channel is outside CBMC's reach (C16). Bounds: queue length <= 3 (<= 2 per input for merges), <= 3 hooks; "
+            "quick leaves out the four harnesses over 3 min (MergeOrderedHook with two non-empty inputs, TopLevelFoldHook with 2 items), which are in thorough.",
+    "technique": "contract-based verification: Kani bounded harness contracts on the real hook code (whole file extracted mechanically), havoc driver and havoc hooks as callee contracts",
+    "design": "DESIGN.md §5 C36, §14",
+}
+
 CLAIMS["C05"] = {
     "text": "Partial, bounded: the tombstone merge / comparison ALGORITHMS (SetUnionWithTombstones::{merge, partial_cmp, eq, is_bot}, "
             "MapUnionWithTombstones::merge) run under Kani on the real crate with harness array-backed sets/maps standing for any Set / "
